@@ -35,7 +35,7 @@ Theorem C46_sound : forall h dt fuel c i fc k j,
 Proof.
   intros h dt fuel c i fc k j Hd Ho Hf Hb.
   destruct (blame_pos_sound h dt Hd Ho fuel c i fc k j Hf Hb) as (Hle & kc & fk & H1 & H2 & H3 & H4 & H5).
-  split; [exact Hle|]. exists kc, fk. repeat split; auto. now apply first_taker_none.
+  split; [exact Hle|]. exists kc, fk. repeat split; auto. now apply taker_none.
 Qed.
 Print Assumptions C46_sound.
 
@@ -78,6 +78,24 @@ Example C46_guards_hold : dag_ok ex_hist = true /\ oracle_ok ex_hist ex_dt = tru
 Proof. vm_compute. split; reflexivity. Qed.
 Example C46_merge_blame : blame ex_hist ex_dt 3 = [Some 0; Some 2; Some 3].
 Proof. vm_compute. reflexivity. Qed.
+(* The deviation from git that was repaired in /repo ("fix: blame passes all lines to a parent with an
+   identical blob, as git does"): merge 3 of parents [2; 1] whose file equals parent 1's.  The unrepaired
+   rule (first parent in which the line is Equal: first_taker) sends line 1 to parent 2, the repaired
+   attribution (taker) sends every line to the identical parent 1, as git blame does. *)
+Definition ex_hist2 : history :=
+  [ {| c_parents := []; c_file := Some [ex_l 1] |};
+    {| c_parents := [0]; c_file := Some [ex_l 1; ex_l 7; ex_l 9] |};
+    {| c_parents := [0]; c_file := Some [ex_l 1; ex_l 9] |};
+    {| c_parents := [2; 1]; c_file := Some [ex_l 1; ex_l 7; ex_l 9] |} ].
+Definition ex_dt2 : dtable :=
+  [ (0, 1, [(Equal, 1); (Add, 2)]); (0, 2, [(Equal, 1); (Add, 1)]); (2, 3, [(Equal, 1); (Add, 1); (Equal, 1)]) ].
+Example C46_identical_parent_takes_all :
+  oracle_ok ex_hist2 ex_dt2 = true /\
+  first_taker ex_hist2 ex_dt2 3 [ex_l 1; ex_l 7; ex_l 9] 2 [2; 1] = Some (2, 1) /\
+  taker ex_hist2 ex_dt2 3 [ex_l 1; ex_l 7; ex_l 9] 2 [2; 1] = Some (1, 2) /\
+  blame ex_hist2 ex_dt2 3 = [Some 0; Some 1; Some 1].
+Proof. vm_compute. repeat split; reflexivity. Qed.
+
 (* the contract matters: an oracle that calls different lines Equal is rejected by the guard *)
 Example C46_guard_rejects : oracle_ok ex_hist [(0, 1, [(Equal, 2)])] = false.
 Proof. vm_compute. reflexivity. Qed.
